@@ -195,6 +195,10 @@ def _check_main(ctx, rep: Report):
 def check(ctx, rep):
     from . import metarules, shared
     _check_main(ctx, rep)
+    from . import metarules, r5rules
+    r5rules.property_rules(ctx, rep, "C04.PROP", ("order",))
+    r5rules.init_spec_source(ctx, rep, "C04.INIT")
+    r5rules.mutate_value_inplace_sites(ctx, rep, "C04.MV")
     metarules.recursion_threads_guard(ctx, rep, "C04.REC")
     from .c01 import w_rule
     w_rule(ctx, rep, "C04.COW")      # copy-on-write routes write nothing pre-existing, so a failure cannot leave it changed
